@@ -127,7 +127,7 @@ impl Sess {
             "CREATE SCHEMA s0",
             "CREATE TABLE m0 AS SELECT 1 AS x",
             "PREPARE p0 AS SELECT 1 AS x",
-            "PREPARE pins(INT) AS INSERT INTO m0 VALUES ($1)",
+            "PREPARE pins(BIGINT) AS INSERT INTO m0 VALUES ($1)",
         ] {
             ctx.sql(s).await.unwrap_or_else(|e| panic!("setup {}: {}", s, e));
         }
@@ -179,6 +179,7 @@ impl Sess {
         let ctx = self.ctx();
         let mut out = Vec::new();
         for cat in ctx.catalog_names() {
+            out.push(format!("catalog {}", cat));
             let c = ctx.catalog(&cat).unwrap();
             for sch in c.schema_names() {
                 if sch == "information_schema" {
@@ -192,7 +193,9 @@ impl Sess {
                             if t == "metrics" && cat == "datafusion" && sch == "public" {
                                 // the chunk set behind `metrics` is rebound by every query (C10's subject);
                                 // only its existence and kind are part of the session's definition
-                                format!("{:?}", p.table_type())
+                                let any = p.as_any();
+                                let chunks = any.is::<datafusion::datasource::listing::ListingTable>() || any.is::<datafusion::datasource::empty::EmptyTable>();
+                                format!("{:?}:{}", p.table_type(), if chunks { "chunk-backed" } else { "redefined" })
                             } else {
                                 format!("{:?}:{}", p.table_type(), p.schema().fields().iter().map(|f| f.name().as_str()).collect::<Vec<_>>().join("/"))
                             }
@@ -212,8 +215,13 @@ impl Sess {
         let copy = SessionContext::new_with_state(self.ctx().state());
         let mut prepared = Vec::new();
         for name in PREPARED_NAMES {
-            let call = if *name == "pins" { "EXPLAIN EXECUTE pins(7)".to_string() } else { format!("EXPLAIN EXECUTE {}", name) };
-            if copy.state().create_logical_plan(&call).await.is_ok() && copy.sql(&call).await.is_ok() {
+            // `EXECUTE` only builds the DataFrame of the prepared plan here; it is never collected
+            let call = match *name {
+                "pins" => "EXECUTE pins(7)".to_string(),
+                "p2" => "EXECUTE p2(7)".to_string(),
+                _ => format!("EXECUTE {}", name),
+            };
+            if copy.sql(&call).await.is_ok() {
                 prepared.push(name.to_string());
             }
         }
@@ -536,6 +544,7 @@ pub const IFACES: &[(&str, &str)] = &[
     ("grpc.get_flight_info_statement", "flightinfo"),
     ("grpc.do_get_statement", "sql"),
     ("grpc.create_prepared_statement+do_get", "flightprepgrpc"),
+    ("engine.execute_stream", "execstream"),
 ];
 
 fn api_state(sess: &Sess) -> ApiState {
@@ -543,46 +552,85 @@ fn api_state(sess: &Sess) -> ApiState {
     ApiState { ingester: Arc::new(ing), query_node: sess.node.clone() }
 }
 
-/// Submits `sql` through one interface; true = the interface reported success.
-async fn submit(sess: &Sess, entry: &str, sql: &str) -> bool {
+/// What an interface did with a statement.
+#[derive(Clone, Debug, PartialEq)]
+pub enum Verdict {
+    /// the interface reported success
+    Served,
+    /// refused by the admission check (or because the text is not exactly one statement)
+    Refused(String),
+    /// admitted, but planning/execution failed for a reason of its own (type error, ...)
+    Failed(String),
+}
+
+fn verdict_of_error(msg: String) -> Verdict {
+    // SQLOptions::verify_plan: "DDL not supported: ..", "DML not supported: ..", "Statement not supported: ..";
+    // SessionState::sql_to_statement: "... only supports a single SQL statement"
+    // SessionState::sql_to_statement: "No SQL statements were provided in the query string"
+    let gate = ["DDL not supported", "DML not supported", "Statement not supported", "only supports a single SQL statement", "No SQL statements were provided"];
+    if gate.iter().any(|g| msg.contains(g)) {
+        Verdict::Refused(first_line(&msg))
+    } else {
+        Verdict::Failed(msg.chars().take(300).collect())
+    }
+}
+
+fn v<T, E: std::fmt::Display>(r: Result<T, E>) -> Verdict {
+    match r {
+        Ok(_) => Verdict::Served,
+        Err(e) => verdict_of_error(e.to_string()),
+    }
+}
+
+async fn http_verdict(r: axum::response::Response) -> Verdict {
+    if r.status().is_success() {
+        return Verdict::Served;
+    }
+    let body = axum::body::to_bytes(r.into_body(), 1 << 20).await.unwrap_or_default();
+    verdict_of_error(String::from_utf8_lossy(&body).to_string())
+}
+
+/// Submits `sql` through one interface.
+async fn submit(sess: &Sess, entry: &str, sql: &str) -> Verdict {
     match entry {
-        "node.query" | "node.query_indexed" => sess.node.query(sql).await.is_ok(),
+        "node.query" | "node.query_indexed" => v(sess.node.query(sql).await),
         "http.sql_post" => {
-            let r = sql_http::execute_sql(State(api_state(sess)), Json(sql_http::SqlRequest { query: sql.to_string(), format: None })).await;
-            r.status().is_success()
+            http_verdict(sql_http::execute_sql(State(api_state(sess)), Json(sql_http::SqlRequest { query: sql.to_string(), format: None })).await).await
         }
         "http.sql_get" => {
-            let r = sql_http::execute_sql_get(State(api_state(sess)), AxQuery(sql_http::SqlRequest { query: sql.to_string(), format: Some("csv".into()) })).await;
-            r.status().is_success()
+            http_verdict(sql_http::execute_sql_get(State(api_state(sess)), AxQuery(sql_http::SqlRequest { query: sql.to_string(), format: Some("csv".into()) })).await).await
         }
         "node.query_stream" => match sess.node.query_stream(sql).await {
             Ok(mut rx) => {
                 // drain what the historical phase produced
                 while let Ok(Some(_)) = tokio::time::timeout(std::time::Duration::from_millis(20), rx.recv()).await {}
-                true
+                Verdict::Served
             }
-            Err(_) => false,
+            Err(e) => verdict_of_error(e.to_string()),
         },
-        "flight.do_get" => FlightSqlQueryService::new(sess.node.clone()).do_get(&Ticket::new(sql.as_bytes().to_vec())).await.is_ok(),
-        "flight.get_flight_info" => FlightSqlQueryService::new(sess.node.clone()).get_flight_info(sql).await.is_ok(),
-        "flight.create_prepared_statement" => FlightSqlQueryService::new(sess.node.clone()).create_prepared_statement(sql).await.is_ok(),
+        "flight.do_get" => v(FlightSqlQueryService::new(sess.node.clone()).do_get(&Ticket::new(sql.as_bytes().to_vec())).await),
+        "flight.get_flight_info" => v(FlightSqlQueryService::new(sess.node.clone()).get_flight_info(sql).await),
+        "flight.create_prepared_statement" => v(FlightSqlQueryService::new(sess.node.clone()).create_prepared_statement(sql).await),
         "grpc.get_flight_info_statement" => {
             let svc = FlightSqlGrpcService::new(sess.node.clone());
-            svc.get_flight_info_statement(
-                CommandStatementQuery { query: sql.to_string(), transaction_id: None },
-                tonic::Request::new(FlightDescriptor::new_cmd(Vec::<u8>::new())),
-            )
-            .await
-            .is_ok()
+            v(svc
+                .get_flight_info_statement(
+                    CommandStatementQuery { query: sql.to_string(), transaction_id: None },
+                    tonic::Request::new(FlightDescriptor::new_cmd(Vec::<u8>::new())),
+                )
+                .await
+                .map_err(|s| s.message().to_string()))
         }
         "grpc.do_get_statement" => {
             let svc = FlightSqlGrpcService::new(sess.node.clone());
-            svc.do_get_statement(
-                TicketStatementQuery { statement_handle: sql.as_bytes().to_vec().into() },
-                tonic::Request::new(Ticket::new(Vec::<u8>::new())),
-            )
-            .await
-            .is_ok()
+            v(svc
+                .do_get_statement(
+                    TicketStatementQuery { statement_handle: sql.as_bytes().to_vec().into() },
+                    tonic::Request::new(Ticket::new(Vec::<u8>::new())),
+                )
+                .await
+                .map(|_| ())
+                .map_err(|s| s.message().to_string()))
         }
         "grpc.create_prepared_statement+do_get" => {
             let svc = FlightSqlGrpcService::new(sess.node.clone());
@@ -593,16 +641,31 @@ async fn submit(sess: &Sess, entry: &str, sql: &str) -> bool {
                 )
                 .await;
             match created {
-                Ok(res) => svc
+                Ok(res) => v(svc
                     .do_get_prepared_statement(
                         CommandPreparedStatementQuery { prepared_statement_handle: res.prepared_statement_handle },
                         tonic::Request::new(Ticket::new(Vec::<u8>::new())),
                     )
                     .await
-                    .is_ok(),
-                Err(_) => false,
+                    .map(|_| ())
+                    .map_err(|s| s.message().to_string())),
+                Err(s) => verdict_of_error(s.message().to_string()),
             }
         }
+        "engine.execute_stream" => match sess.node.engine.execute_stream(sql).await {
+            Ok(mut stream) => {
+                use futures::StreamExt;
+                let mut res = Verdict::Served;
+                while let Some(b) = stream.next().await {
+                    if let Err(e) = b {
+                        res = verdict_of_error(e.to_string());
+                        break;
+                    }
+                }
+                res
+            }
+            Err(e) => verdict_of_error(e.to_string()),
+        },
         other => panic!("unknown entry point {}", other),
     }
 }
@@ -612,6 +675,7 @@ fn classes_str(c: &BTreeSet<String>) -> String {
 }
 
 pub struct GateRun {
+    pub verdict: Verdict,
     pub impl_out: String,
     pub model_line: Option<String>,
     pub oracle: Vec<String>,
@@ -624,7 +688,14 @@ pub async fn run_gate(case: &Case, entry: &str, miface: &str) -> GateRun {
     let plans = model_plans(&sess, &sql).await;
     let probe_before = sess.probe_fresh_node().await;
     let before = sess.snapshot().await;
-    let accepted = submit(&sess, entry, &sql).await;
+    let verdict = submit(&sess, entry, &sql).await;
+    // with a plan: "accepted" = not refused by the admission (a failure of the statement's own is
+    // not a refusal); without a plan the text cannot be served at all
+    let accepted = match (&verdict, plans.is_some()) {
+        (Verdict::Served, _) => true,
+        (Verdict::Refused(_), _) => false,
+        (Verdict::Failed(_), has_plan) => has_plan,
+    };
     let after = sess.snapshot().await;
     let probe_same = sess.probe().await;
     let probe_fresh = sess.probe_fresh_node().await;
@@ -636,10 +707,11 @@ pub async fn run_gate(case: &Case, entry: &str, miface: &str) -> GateRun {
     if probe_same != probe_before || probe_fresh != probe_before {
         oracle.push(format!("{}: probe query answered {} before, {} afterwards on the same node, {} on a new node", entry, probe_before, probe_same, probe_fresh));
     }
-    if case.must_reject && accepted {
-        oracle.push(format!("{}: a statement that writes or redefines objects was accepted instead of being rejected", entry));
+    if case.must_reject && verdict == Verdict::Served {
+        oracle.push(format!("{}: a statement that writes or redefines objects was served instead of being rejected with an error", entry));
     }
     GateRun {
+        verdict,
         impl_out: format!("accepted={} effects={}", if accepted { 1 } else { 0 }, classes_str(&classes)),
         model_line: plans.map(|p| format!("gate {} {}", miface, p.join("|")).trim_end().to_string()),
         oracle,
@@ -859,7 +931,9 @@ fn gen_case(rng: &mut Rng, n: u64, report: &mut Report) -> Case {
         report.bump(&format!("kind.ddl.{}", kind));
         // EXPLAIN [ANALYZE] of DDL does not run it (the physical planner refuses DDL)
         let _ = runs;
-        return Case { sql, kind: format!("ddl.{}", kind), must_reject: unwrapped && effective, pre, exact: unwrapped && effective };
+        // CREATE TABLE AS runs its source query, which may fail on its own (type error against the
+        // placeholder table of a cold node): subset only
+        return Case { sql, kind: format!("ddl.{}", kind), must_reject: unwrapped && effective, pre, exact: unwrapped && effective && kind != "create_table_as" };
     }
     if fam < 66 {
         // DML
@@ -878,7 +952,9 @@ fn gen_case(rng: &mut Rng, n: u64, report: &mut Report) -> Case {
         let (sql, runs) = wrap(rng, &stmt, report);
         report.bump(&format!("kind.dml.{}", kind));
         let mem = kind.starts_with("insert.mem");
-        return Case { sql, kind: format!("dml.{}", kind), must_reject: writes && runs && mem, pre, exact: mem && runs };
+        // the source query of insert.mem_select may fail on its own (e.g. a type error against the
+        // placeholder table of a cold node), so its effect is only required to be a subset
+        return Case { sql, kind: format!("dml.{}", kind), must_reject: writes && runs && kind == "insert.mem", pre, exact: kind == "insert.mem" && runs };
     }
     if fam < 78 {
         // session statements
@@ -1012,7 +1088,7 @@ pub fn main(args: Args) {
             }
             let g = rt.block_on(run_gate(&case, entry, miface));
             let m = g.model_line.as_ref().map(|l| model.ask(l)).unwrap_or_else(|| "-".into());
-            println!("{:45} impl {} | model {} | oracle {:?}", entry, g.impl_out, m, g.oracle);
+            println!("{:45} impl {} ({:?}) | model {} | oracle {:?}", entry, g.impl_out, g.verdict, m, g.oracle);
             if !g.oracle.is_empty() || (g.model_line.is_some() && !model.is_null() && m != g.impl_out) {
                 failed = true;
             }
@@ -1020,7 +1096,7 @@ pub fn main(args: Args) {
         std::process::exit(if failed { 1 } else { 0 });
     }
 
-    let n_random = if args.thorough() { 2000 } else { 130 };
+    let n_random = if args.thorough() { 1500 } else { 130 };
     let mut rng = Rng::new(args.seed);
     let mut cases: Vec<(String, Case)> = corpus().into_iter().map(|c| ("corpus".to_string(), c)).collect();
     for i in 0..n_random {
@@ -1077,7 +1153,7 @@ pub fn main(args: Args) {
         for (entry, miface) in IFACES {
             let g = match csv_common::catch(std::panic::AssertUnwindSafe(|| rt.block_on(run_gate(case, entry, miface)))) {
                 Ok(g) => g,
-                Err(msg) => GateRun { impl_out: format!("PANIC {}", msg), model_line: None, oracle: vec![] },
+                Err(msg) => GateRun { verdict: Verdict::Failed("panic".into()), impl_out: format!("PANIC {}", msg), model_line: None, oracle: vec![] },
             };
             if g.impl_out.starts_with("PANIC") {
                 report.bump("gate.panic");
@@ -1086,10 +1162,10 @@ pub fn main(args: Args) {
             }
             report.impl_runs += 1;
             report.bump(&format!("iface.{}", entry));
-            if g.impl_out.starts_with("accepted=1") {
-                report.bump("gate.accepted");
-            } else {
-                report.bump("gate.rejected");
+            match &g.verdict {
+                Verdict::Served => report.bump("gate.served"),
+                Verdict::Refused(_) => report.bump("gate.refused"),
+                Verdict::Failed(_) => report.bump("gate.failed_on_its_own"),
             }
             if let Some(line) = &g.model_line {
                 let (differs, m) = model.differs(line, &g.impl_out);
@@ -1101,7 +1177,7 @@ pub fn main(args: Args) {
                         "shrunk": case.to_json(), "oracle_failed": !g.oracle.is_empty(),
                     }));
                 }
-            } else if g.impl_out != "accepted=0 effects=" {
+            } else if g.verdict == Verdict::Served || !g.impl_out.ends_with("effects=") {
                 // no plan exists for the text (parse / planning error): it cannot be served
                 report.disagreement(json!({
                     "correspondence": format!("{}: text without a plan must be rejected without effect", entry),
